@@ -265,13 +265,20 @@ def filter_case(case):
             elif refs(probe) != refs_nd:
                 res['failures'].append(('C10', '--no-data together with --replace-text was refused but refs changed'))
             shutil.rmtree(probe, ignore_errors=True)
-        separate = case['mode'] != 'rules' and case['id'] % 6 == 3
+        separate = (case['mode'] != 'rules' and case['id'] % 6 == 3) or (case['mode'] == 'rules' and case['id'] % 6 == 4 and not bare_repo and root_repo == root)
         if separate:
-            # rewrite into a second, empty repository; both given as relative paths from the common parent directory
+            # rewrite into a second repository; both given as relative paths from the common parent directory. The target is empty,
+            # or (content-rule cases, every other one) a clone that already holds the old history: after the run neither what the
+            # filter dropped nor what the clone held before may survive in the target's object store
             tgt = os.path.join(root, 'tgt')
-            subprocess.run(['git', 'init', '-q', tgt], check=True, env=GIT_ENV, stdout=subprocess.DEVNULL)
+            if case['mode'] == 'rules' and case['id'] % 12 == 4:
+                subprocess.run(['git', 'clone', '-q', '--no-local', repo, tgt], check=True, env=GIT_ENV, stdout=subprocess.DEVNULL, stderr=subprocess.DEVNULL)
+                subprocess.run(['git', '-C', tgt, 'remote', 'remove', 'origin'], env=GIT_ENV, stdout=subprocess.DEVNULL, stderr=subprocess.DEVNULL)
+                count('separate-target-holding-the-old-history')
+            else:
+                subprocess.run(['git', 'init', '-q', tgt], check=True, env=GIT_ENV, stdout=subprocess.DEVNULL)
             git(tgt, 'config', 'user.name', 'T'); git(tgt, 'config', 'user.email', 't@e')
-            rc, out, err, dt = run_tool(root, ['--source', 'repo', '--target', 'tgt', '--force'] + extra_cli + cli)
+            rc, out, err, dt = run_tool(root, ['--source', os.path.relpath(repo, root), '--target', 'tgt', '--force'] + extra_cli + cli)
             count('separate-relative-target')
             src_refs_before, src_head_before = before_refs, before_head
             if rc == 0 and (refs(repo) != src_refs_before or head_of(repo) != src_head_before):
@@ -559,7 +566,9 @@ def dryrun_case(case):
         if k % 5 == 1: extra.append('--backup')
         if k % 7 == 2: extra += ['--sensitive', '--no-fetch'] if variant != 0 else []
         if k % 4 == 3: extra.append('--write-report')
-        if k % 6 == 4: extra += ['--cleanup', 'aggressive']
+        if k % 6 == 4: extra += ['--debug-mode', '--cleanup', 'aggressive']      # the aggressive cleanup is a debug-mode option
+        if res['dist'].get('message-cites-a-real-id') and '--force' not in extra:
+            extra.append('--force')                                               # the added commit left loose objects: not a fresh clone any more
         if variant == 0 and k % 4 == 2 and refs(repo):
             # an earlier real (no-option) run in the same repository leaves its marks and maps in .git/filter-repo
             rc0, _, err0, _ = run_tool(repo, ['--force'])
@@ -737,11 +746,25 @@ def backup_case(case):
             elif k % 7 == 5:
                 link = os.path.join(root, 'link-to-repo'); os.symlink(repo, link)
                 bargs += ['--target', link]; count('target-through-a-symlink')
+        if k % 5 == 4 and '--replace-text' not in cli and expect[0] != 'unwritable':
+            bargs += ['--no-data']          # blobs are not rewritten, but the filters and the gc still delete them: the bundle must hold them
+            count('explicit-no-data')
+        detached_only = False
+        if k % 11 == 6 and k % 3 != 1 and refs(repo) and expect[0] != 'unwritable' and '--sensitive' not in bargs:
+            # a history that hangs on a detached HEAD alone: no ref at all under refs/ (for-each-ref lists nothing), yet
+            # `bundle create --all` and the export both include HEAD
+            git(repo, 'checkout', '-q', '--detach', check=False)
+            if git(repo, 'rev-parse', '--verify', '-q', 'HEAD', check=False).strip():
+                git(repo, 'update-ref', '--stdin', input=''.join(f'delete {n}\n' for n in refs(repo)).encode())
+                detached_only = True
+                count('detached-head-and-no-ref')
         before_refs = refs(repo)
         before_head = git(repo, 'rev-parse', 'HEAD', check=False).decode().strip()
         before_snapshot = full_snapshot(repo) if expect[0] == 'unwritable' else None
         all_objects = set(l.split(' ')[0] for l in git(repo, 'cat-file', '--batch-all-objects', '--batch-check').decode().splitlines())
         reachable = set(x.split(' ')[0] for x in git(repo, 'rev-list', '--objects', '--all').decode('latin1').splitlines()) if before_refs else set()
+        if detached_only:
+            reachable = set(x.split(' ')[0] for x in git(repo, 'rev-list', '--objects', 'HEAD').decode('latin1').splitlines())
         rc, out, err, dt = run_tool(repo, ['--force'] + bargs + cli, env=tool_env)
         if expect[0] == 'unwritable':
             after = full_snapshot(repo)
@@ -752,7 +775,7 @@ def backup_case(case):
                 res['failures'].append(('C13', f'the bundle could not be created but {changed} changed'))
             count('unwritable-refused' if rc != 0 else 'unwritable-accepted')
             return res
-        if not before_refs:
+        if not before_refs and not detached_only:
             count('no-refs')
             return res
         # locate the bundle
@@ -782,7 +805,14 @@ def backup_case(case):
             res['failures'].append(('C13', f'the bundle does not advertise every pre-run ref with its pre-run id: {diff}'))
         # restorable: a mirror clone of the bundle has every object that was reachable before
         rest = os.path.join(root, 'restored.git')
-        c = subprocess.run(['git', 'clone', '-q', '--mirror', bundle, rest], stdout=subprocess.PIPE, stderr=subprocess.PIPE, env=GIT_ENV)
+        if detached_only:
+            # the bundle advertises HEAD only: fetch that
+            if heads.get('HEAD') != before_head:
+                res['failures'].append(('C13', f'the bundle does not advertise the detached HEAD with its pre-run id (HEAD was {before_head}, the bundle lists {heads})'))
+            subprocess.run(['git', 'init', '-q', '--bare', rest], check=True, env=GIT_ENV, stdout=subprocess.DEVNULL)
+            c = subprocess.run(['git', '-C', rest, 'fetch', '-q', bundle, 'HEAD'], stdout=subprocess.PIPE, stderr=subprocess.PIPE, env=GIT_ENV)
+        else:
+            c = subprocess.run(['git', 'clone', '-q', '--mirror', bundle, rest], stdout=subprocess.PIPE, stderr=subprocess.PIPE, env=GIT_ENV)
         if c.returncode != 0:
             res['failures'].append(('C13', 'cloning the bundle fails: ' + c.stderr.decode('utf-8', 'replace')[-200:]))
         else:
